@@ -69,6 +69,8 @@ def registered_with_signature(ctx: Ctx, rule: str) -> int:
     registered in resolved_references with the RETURN signature of its producer before the function returns"""
     rep = ctx.report
     prog = ctx.prog
+    from .roles import resolved_refs_attr
+    _RRA[0] = resolved_refs_attr(ctx)
     n2 = 0
     main_mod = prog.module("dds.introspect")
     for f in [x for x in prog.funcs.values() if x.module is main_mod]:
@@ -171,6 +173,11 @@ def dedup_complete(ctx: Ctx, rule: str) -> int:
 def run(ctx: Ctx) -> None:
     rep = ctx.report
     prog = ctx.prog
+    from .roles import resolved_refs_attr as _rra_role, path_map_field as _pmf_role
+    from .common import ctx_global_name
+    _rra = _rra_role(ctx)
+    _RRA[0] = _rra
+    _pmf9 = _pmf_role(ctx)
     ctx.types
     top, nested = find_api_functions(ctx)
     rep.rule("C09.R1", "visited-set key of a nested recursive walker depends on the walker's own parameter")
@@ -265,7 +272,7 @@ def run(ctx: Ctx) -> None:
                     for rs in [x for x in ast.walk(n) if isinstance(x, ast.Raise) and error_code_of(x) is not None]:
                         o, atoms = pass_outcomes(cfg, f.module, rs)
                         for a in atoms:
-                            if "resolved_references" in unparse(a):
+                            if _rra in unparse(a):
                                 outs += [x for x in o if x.ast is a]
                     desc = "a load is accepted only if its path is already resolved when the load is visited (ordering in program order)"
                     w = dominated(ctx, f, r, outs) if outs else ["no `raise DDSException` guarded by a membership test in resolved_references precedes the return of the loaded path"]
@@ -276,7 +283,7 @@ def run(ctx: Ctx) -> None:
                                 stmt_key(r), what="a load that precedes the producer of its path in the same evaluation is not rejected")
     for f in prog.funcs.values():
         if f.module is main_mod and f.parent is not None and any(isinstance(n, ast.Call) and isinstance(n.func, ast.Attribute) and n.func.attr == "get"
-                                                                and "resolved_references" in unparse(n.func.value) for n in f.own_nodes()):
+                                                                and _rra in unparse(n.func.value) for n in f.own_nodes()):
             n3 += 1
             asserts = [n for n in f.own_nodes() if isinstance(n, ast.Assert)]
             raises = [n for n in f.own_nodes() if isinstance(n, ast.Raise) and error_code_of(n) is not None]
@@ -300,14 +307,14 @@ def run(ctx: Ctx) -> None:
     wit = ["paths are committed once, at the end of the evaluation: the store still maps the path to its previous key (or to nothing)"]
     if fetches and fetches[0].args:
         sl = ctx.slicer(follow_calls=False).slice(load, fetches[0].args[0])
-        it = sl.find(lambda f_, n_: isinstance(n_, ast.Attribute) and n_.attr == "requested_paths")
+        it = sl.find(lambda f_, n_: isinstance(n_, ast.Attribute) and n_.attr == _pmf9)
         if it is not None:
             # guarded by `ctx is not None`
             guard = False
             cur = it.node
             while cur in load.module.parent:
                 cur = load.module.parent[cur]
-                if isinstance(cur, ast.If) and ("is not None" in unparse(cur.test) or unparse(cur.test).startswith("_eval_ctx")):
+                if isinstance(cur, ast.If) and ("is not None" in unparse(cur.test) or unparse(cur.test).startswith(ctx_global_name(ctx))):
                     guard = True
                 if isinstance(cur, ast.IfExp):
                     guard = True
@@ -323,7 +330,7 @@ def run(ctx: Ctx) -> None:
     cfg = cfg_of(top)
     intro = calls_to(ctx, top, ["dds.introspect.introspect"])
     indirect = calls_to(ctx, top, ["dds._introspect_indirect.introspect_indirect"])
-    assigns = [n for n in top.own_nodes() if isinstance(n, ast.Assign) and isinstance(n.targets[0], ast.Attribute) and n.targets[0].attr == "resolved_references"]
+    assigns = [n for n in top.own_nodes() if isinstance(n, ast.Assign) and isinstance(n.targets[0], ast.Attribute) and n.targets[0].attr == _rra]
     if not intro or not indirect:
         raise AnchorError("analysis calls not found in the top-level evaluation function")
     desc = "the references of external loads are fetched from the store and installed before the main analysis"
@@ -557,13 +564,16 @@ def _assigned(f: Func) -> set:
     return out
 
 
+_RRA = ["resolved_references"]  # set from roles.resolved_refs_attr at the start of each rule that uses it
+
+
 def _registrations(f: Func):
     """statements `<x>.resolved_references[K] = V` in f"""
     out = []
     for n in f.own_nodes():
         if isinstance(n, ast.Assign) and isinstance(n.targets[0], ast.Subscript):
             t = n.targets[0]
-            if isinstance(t.value, ast.Attribute) and t.value.attr == "resolved_references":
+            if isinstance(t.value, ast.Attribute) and t.value.attr == _RRA[0]:
                 out.append((n, t.slice, n.value))
     return out
 
